@@ -7,7 +7,7 @@ ASSUMPTIONS = ["transactions are tagged with harness serial numbers (byte identi
                "sync-limit truncation and lost responses come from the schedule"]
 def run(ctx):
     cov, findings, diffs = None, [], []
-    for fl in ("faults", "static"):
+    for fl in ("faults", "static", "splitfaults"):
         res = simcommon.run(ctx, fl)
         f, d = simcommon.findings_for(res, "C05", ["pl", "SELF"])
         findings += f
@@ -16,9 +16,13 @@ def run(ctx):
             "every committed transaction was submitted and is committed once. Model: the pool machine predicts the payload of every self-event and the pool. flavour=" + fl)
         if fl == "faults":
             c["distinct_nontrivial"] = sum(1 for s in res["stats"] if s.get("a:fault-injected", 0) > 0)
+        if fl == "splitfaults":
+            # directed: a write of ProcessDecidedRounds fails while the call that unblocks a backlog of decided rounds is in a later round
+            c["distinct_nontrivial"] = sum(1 for s in res["stats"] if s.get("a:pass-fault-injected", 0) > 0)
+
         if cov is None: cov = c
         else:
             for k in ("evaluations", "distinct_nontrivial", "histories", "traces_validated_against_impl"):
                 cov[k] += c[k]
-            cov["histogram_" + fl] = c["histogram"]
+            cov["histogram_" + fl] = c["histogram"]; cov["distribution_" + fl] = c["distribution"]
     return dict(findings=findings, coverage=cov, corr_diffs=diffs)
